@@ -436,8 +436,8 @@ class _LoggedFn:
                 r = a(*args, **kw)
             except rsx.RsxError as e:
                 raise Undecided("extractor: %s: %s(%s): %s" % (self.f.origin, k, ", ".join(repr(z)[:50] for z in args), e))
-            if k in ("rewrite", "strip_macro_stmts", "strip_cfg_blocks", "desugar_for", "replace_macro_calls", "rewrite_casts"):
-                rule = {"strip_macro_stmts": "R7", "strip_cfg_blocks": "R8", "desugar_for": "R9", "replace_macro_calls": "R-format", "rewrite_casts": "R-cast"}.get(k, rule_kw or "rewrite")
+            if k in ("rewrite", "strip_macro_stmts", "strip_cfg_blocks", "desugar_for", "index_for", "replace_macro_calls", "rewrite_casts"):
+                rule = {"strip_macro_stmts": "R7", "strip_cfg_blocks": "R8", "desugar_for": "R9", "index_for": "R9-index", "replace_macro_calls": "R-format", "rewrite_casts": "R-cast"}.get(k, rule_kw or "rewrite")
                 self.x.note(rule, "%s: %s%r fired %s" % (self.f.origin, k, tuple(str(z)[:60] for z in args), r))
             return r
         return w
